@@ -118,7 +118,13 @@ def _restructure_gate(prog, res):
     unknown = None
     for q in names:
       if q not in table:
-        continue      # a transparent helper: inlined, judged with its caller
+        # a transparent helper that was inlined: judged with its callers,
+        # i.e. with the functions of this module that changed at all
+        for q2, (f2, _, _) in table.items():
+          d2 = inline.edit_size(mod.name, q2, f2)
+          if d2:
+            worst = max(worst, d2)
+        continue
       d = inline.edit_size(mod.name, q, table[q][0])
       if d is None:
         unknown = q
